@@ -440,7 +440,9 @@ impl Engine for HelpSim {
     }
 
     fn gen(&self, rng: &mut Rng, _tier: Tier) -> C12Sc {
-        let cfg = GenCfg::help_heavy();
+        let mut cfg = GenCfg::help_heavy();
+        // a help request is not an error to be ignored: it must surface under ignore_errors too
+        cfg.allow_ignore_errors = true;
         let mut spec = gen_tree(rng, &cfg);
         for _ in 0..3 {
             if gate(&spec).is_ok() {
@@ -831,7 +833,7 @@ fn exec_ops(sc: &C12Sc, log: &mut Log, out: &mut Outcome) {
 /// Levels reached by plain subcommand-name dispatch (no setting that legitimately changes what
 /// `prog a b --help` means).
 fn plain_dispatch(c: &CmdSpec) -> bool {
-    !c.has(CmdSetting::AllowExternalSubcommands) && !c.has(CmdSetting::IgnoreErrors)
+    !c.has(CmdSetting::AllowExternalSubcommands)
 }
 
 /// The help text must be that of `level`: its usage line names the level, and no optional
